@@ -223,7 +223,10 @@ def _threading(ctx, P):
         return make_da("APPLIED", [Sym("t")] + list(ocd[0] if ocd else []))
 
     def rename(ev, recv, args, kw, node):
-        m = dict(args[0]) if args and isinstance(args[0], dict) else {}
+        first = args[0] if args else kw.get("new_name_or_name_dict")
+        if first is not None and not isinstance(first, dict):  # xarray: a non-mapping argument renames the array itself
+            return recv.with_eff(("rename", (first,)), name=first)
+        m = dict(first) if isinstance(first, dict) else {}
         return recv.with_eff(("rename", m), dims=tuple(m.get(d, d) for d in recv.attrs.get("dims", ())))
 
     mm = dict(da_method_models())
@@ -257,7 +260,7 @@ def _threading(ctx, P):
         # R08.4 naming inside the wrapper
         nm = out.attrs.get("name") if isinstance(out, Obj) else None
         sets = [e for e in ev.events if e[0] == "setattr" and e[2] == "name"]
-        name_val = sets[-1][3] if sets else nm
+        name_val = _renamed_to(out) or (sets[-1][3] if sets else nm)
         from ..absint import Text
 
         want = Text([Sym("phi_name"), Sym("U_SUFFIX")])
@@ -271,7 +274,7 @@ def _threading(ctx, P):
         out2 = ev.call(wrapper, [make_da("phi", [Sym("t"), Sym("zc")], name=Sym("phi_name")), make_da("theta", [Sym("t"), Sym("zc")]), make_da("levels", [Sym("lev")]), Sym("zc"), Sym("zc"), Sym("lev")],
                        {"suffix": "", "mask_edges": Sym("U_MASK"), "bypass_checks": Sym("U_BYPASS"), "logarithmic": Sym("U_LOG")}, None)
         sets2 = [e for e in ev.events if e[0] == "setattr" and e[2] == "name"]
-        nv2 = sets2[-1][3] if sets2 else (out2.attrs.get("name") if isinstance(out2, Obj) else None)
+        nv2 = _renamed_to(out2) or (sets2[-1][3] if sets2 else (out2.attrs.get("name") if isinstance(out2, Obj) else None))
         parts2 = [x for x in nv2.parts if x != ""] if isinstance(nv2, Text) else [nv2]
         if parts2 != [Sym("phi_name")]:
             ctx.report("R08.4", deco, "result name with suffix=''", f"with an empty suffix the result is named {nv2!r}; expected exactly the input's name")
@@ -522,6 +525,20 @@ def _log(ctx, P):
 
 
 LEVEL_VECTORS = [[11.0, 4.5, 19.0, 30.0, 8.75], [1.0, 2.0, 3.0], [3.0, 2.0, 1.0], [2.0, 3.0, 1.0], [3.0, 1.0, 2.0], [1.0, 3.0, 2.0], [2.0, 1.0, 3.0], [2.0, 2.0, 1.0], [5.0]]
+
+
+def _renamed_to(out):
+    """The name given by the last `.rename(<name>)` in the lineage of a modelled array (xarray: a non-mapping first argument
+    renames the array itself), or None."""
+    if not isinstance(out, Obj):
+        return None
+    for e in reversed(out.eff):
+        if e[0] != "rename" or len(e) < 2:
+            continue
+        a = e[1][0] if isinstance(e[1], (list, tuple)) and e[1] else e[1]
+        if a is not None and not isinstance(a, (dict, list, tuple)) and not (isinstance(a, Obj) and a.kind == "dict"):
+            return a
+    return None
 
 
 def _levels_in_any_order(lev_arg, result, logarithmic):
